@@ -2,6 +2,7 @@ SPECIFICATION Spec
 CONSTANTS
   MaxFiles = 2
   MaxMembers = 0
+  MaxPfx = 2
   WithCase = TRUE
 INVARIANT WalkAll
 INVARIANT WalkedLookupable
